@@ -92,7 +92,8 @@ def run(ctx, tag, U, vars_, pre, bbs, op, posts, split=(0, 0), conf_every=1, det
     stats = {"viol": 0}
 
     def mkbbs():
-        return {k: cg.BlackBox("bbtype_" + k, list(v[0]), list(v[1])) for k, v in bbs.items()}
+        # registry value: (inputs, outputs) or (inputs, outputs, name of the box type)
+        return {k: cg.BlackBox(v[2] if len(v) > 2 else "bbtype_" + k, list(v[0]), list(v[1])) for k, v in bbs.items()}
 
     preA = acc_pre(vars_, OM)
 
